@@ -1,6 +1,8 @@
 package props
 
 import (
+	"fmt"
+	"os"
 	"go/token"
 	"go/types"
 	"strings"
@@ -364,172 +366,266 @@ func c14ImmutableTags(c *core.Ctx) {
 		c.Fail("C14.R3", "anchor/refersTo", 0, "no reachability function func(*repository, iterator, Digest) (bool, error) found in ocimem")
 	}
 	nTagStore, nTagDelete, nContentDelete := 0, 0, 0
+	sitesOf := map[*ssa.Function][]ssa.Instruction{}
 	for _, fn := range fns {
-		var sites []ssa.Instruction
 		for _, b := range fn.Blocks {
 			for _, in := range b.Instrs {
 				switch x := in.(type) {
 				case *ssa.MapUpdate:
 					if f, ok := memMapField(x.Map); ok && (f == "tags" || f == "manifests") {
-						sites = append(sites, in)
+						sitesOf[fn] = append(sitesOf[fn], in)
 					}
 				case *ssa.Call:
 					if bi, ok := x.Call.Value.(*ssa.Builtin); ok && bi.Name() == "delete" {
 						if f, ok := memMapField(x.Call.Args[0]); ok && (f == "tags" || f == "manifests" || f == "blobs") {
-							sites = append(sites, in)
+							sitesOf[fn] = append(sitesOf[fn], in)
 						}
 					}
 				}
 			}
 		}
-		if len(sites) == 0 {
+	}
+	// A site inside a private helper is judged under the facts of each call of
+	// the helper (the guard may have stayed in the caller): `deferred` helpers are
+	// not analysed on their own but whenever a caller's analysis inlines them.
+	deferred := map[*ssa.Function]bool{}
+	for fn := range sitesOf {
+		if fn.Parent() == nil && len(privateCallSites(fn)) > 0 {
+			deferred[fn] = true
+		}
+	}
+	reachesDeferred := func(fn *ssa.Function) bool {
+		return helperTouches(fn, 3, func(in ssa.Instruction) bool {
+			if call, ok := in.(*ssa.Call); ok {
+				if sc := call.Call.StaticCallee(); sc != nil && deferred[sc] {
+					return true
+				}
+			}
+			return false
+		})
+	}
+	// verdict per site: the conjunction over every context it was evaluated in
+	type verdict struct {
+		ok   bool
+		seen bool
+	}
+	verdicts := map[ssa.Instruction]*verdict{}
+	note := func(site ssa.Instruction, ok bool) {
+		v := verdicts[site]
+		if v == nil {
+			v = &verdict{ok: true}
+			verdicts[site] = v
+		}
+		v.seen = true
+		v.ok = v.ok && ok
+	}
+	var roots []*ssa.Function
+	for _, fn := range fns {
+		if deferred[fn] {
 			continue
 		}
-		c.Analysed(facts.FuncName(fn))
-		ff := facts.FlowFuncs{
-			Edge: func(b *ssa.BasicBlock, idx int, t facts.Tokens) bool {
-				for _, cd := range facts.EdgeConds(b, idx) {
-					if isImmutableTagsLoad(cd.V) {
-						if cd.Pos {
-							if t["notImmutable"] {
-								return false
-							}
-							t["immutable"] = true
-						} else {
-							if t["immutable"] {
-								return false
-							}
-							t["notImmutable"] = true
-						}
-					}
-					// comma-ok lookup in the tags map
-					if ex, ok := cd.V.(*ssa.Extract); ok && ex.Index == 1 {
-						if lk, ok := ex.Tuple.(*ssa.Lookup); ok && lk.CommaOk {
-							if f, ok := memMapField(lk.X); ok && f == "tags" && !cd.Pos {
-								t["absent:"+facts.Term(lk.Index)] = true
-							}
-						}
-						// ok result of refersTo
-					}
-					if ex, ok := facts.Resolve(cd.V).(*ssa.Extract); ok && ex.Index == 0 {
-						if call, ok := ex.Tuple.(*ssa.Call); ok && refers != nil && call.Call.StaticCallee() == refers && !cd.Pos {
-							// args: (repo, repoTagIter(repo), digest)
-							if it, ok := facts.Resolve(call.Call.Args[1]).(*ssa.Call); ok && it.Call.StaticCallee() != nil &&
-								len(it.Call.Args) == 1 && facts.Term(it.Call.Args[0]) == facts.Term(call.Call.Args[0]) && iteratesTags(it.Call.StaticCallee()) {
-								t["notReferred:"+facts.Term(call.Call.Args[2])] = true
-							}
-						}
-					}
-					// b := repo.manifests[dig]; b == nil  /  b.mediaType == <param>
-					if x, isNil, ok := facts.NilCheck(cd); ok && isNil {
-						if lk, ok := facts.Resolve(x).(*ssa.Lookup); ok {
-							if f, ok := memMapField(lk.X); ok && f == "manifests" {
-								t["mabsent:"+facts.Term(lk.Index)] = true
-							}
-						}
-					}
-					if x, op, y, ok := facts.Cmp(cd); ok && op == token.EQL {
-						for _, pr := range [][2]ssa.Value{{x, y}, {y, x}} {
-							bv, fld, isF := facts.FieldOf(facts.Resolve(pr[0]))
-							if !isF || fld != "mediaType" {
-								continue
-							}
-							lk, isLk := facts.Resolve(bv).(*ssa.Lookup)
-							if !isLk {
-								continue
-							}
-							if f, ok := memMapField(lk.X); !ok || f != "manifests" {
-								continue
-							}
-							if p, isP := facts.ResolveFree(pr[1]).(*ssa.Parameter); isP {
-								t["sameMT:"+facts.Term(lk.Index)+":"+facts.Term(p)] = true
-							}
-						}
-					}
-					// emptiness tests (x == "", len(x) == 0, len(x) > 0 ...), to prune correlated branches
-					if x, isEmpty, ok := facts.EmptyTest(cd); ok {
-						tm := facts.Term(x)
-						if isEmpty {
-							if t["nonempty:"+tm] {
-								return false
-							}
-							t["empty:"+tm] = true
-						} else {
-							if t["empty:"+tm] {
-								return false
-							}
-							t["nonempty:"+tm] = true
-						}
-					}
-				}
-				return true
-			},
+		if len(sitesOf[fn]) > 0 || (fn.Parent() == nil && reachesDeferred(fn)) {
+			roots = append(roots, fn)
 		}
-		// helpers worth following: those that (transitively) test ImmutableTags,
-		// ask the reachability question, or touch the tag/content maps
-		facts.NewInliner(&ff, func(h *ssa.Function) bool {
-			return h.Pkg == fn.Pkg && h != refers && helperTouches(h, 3, func(in ssa.Instruction) bool {
-				switch x := in.(type) {
-				case *ssa.FieldAddr, *ssa.Field:
-					_, name, ok := facts.FieldOf(x.(ssa.Value))
-					return ok && name == "ImmutableTags"
-				case *ssa.MapUpdate:
-					_, ok := memMapField(x.Map)
-					return ok
-				case *ssa.Lookup:
-					_, ok := memMapField(x.X)
-					return ok
-				case *ssa.Call:
-					if bi, ok := x.Call.Value.(*ssa.Builtin); ok && bi.Name() == "delete" {
-						_, ok := memMapField(x.Call.Args[0])
-						return ok
-					}
-					return refers != nil && x.Call.StaticCallee() == refers
+	}
+	// a deferred helper that no analysed caller reaches is analysed on its own
+	for pass := 0; pass < 2; pass++ {
+		if pass == 1 {
+			roots = roots[:0]
+			for _, fn := range fns {
+				if !deferred[fn] {
+					continue
 				}
-				return false
+				for _, site := range sitesOf[fn] {
+					if v := verdicts[site]; v == nil || !v.seen {
+						roots = append(roots, fn)
+						deferred[fn] = false
+						break
+					}
+				}
+			}
+		}
+		for _, fn := range roots {
+			sites := sitesOf[fn]
+			c.Analysed(facts.FuncName(fn))
+			ff := facts.FlowFuncs{
+				Edge: func(b *ssa.BasicBlock, idx int, t facts.Tokens) bool {
+					for _, cd := range facts.EdgeConds(b, idx) {
+						if isImmutableTagsLoad(cd.V) {
+							if cd.Pos {
+								if t["notImmutable"] {
+									return false
+								}
+								t["immutable"] = true
+							} else {
+								if t["immutable"] {
+									return false
+								}
+								t["notImmutable"] = true
+							}
+						}
+						// comma-ok lookup in the tags map
+						if ex, ok := cd.V.(*ssa.Extract); ok && ex.Index == 1 {
+							if lk, ok := ex.Tuple.(*ssa.Lookup); ok && lk.CommaOk {
+								if f, ok := memMapField(lk.X); ok && f == "tags" && !cd.Pos {
+									t["absent:"+facts.Term(lk.Index)] = true
+								}
+							}
+							// ok result of refersTo
+						}
+						if ex, ok := facts.Resolve(cd.V).(*ssa.Extract); ok && ex.Index == 0 {
+							if call, ok := ex.Tuple.(*ssa.Call); ok && refers != nil && call.Call.StaticCallee() == refers && !cd.Pos {
+								// args: (repo, repoTagIter(repo), digest)
+								if it, ok := facts.Resolve(call.Call.Args[1]).(*ssa.Call); ok && it.Call.StaticCallee() != nil &&
+									len(it.Call.Args) == 1 && facts.Term(it.Call.Args[0]) == facts.Term(call.Call.Args[0]) && iteratesTags(it.Call.StaticCallee()) {
+									t["notReferred:"+facts.Term(call.Call.Args[2])] = true
+								}
+							}
+						}
+						// b := repo.manifests[dig]; b == nil  /  b.mediaType == <param>
+						if x, isNil, ok := facts.NilCheck(cd); ok && isNil {
+							if lk, ok := facts.Resolve(x).(*ssa.Lookup); ok {
+								if f, ok := memMapField(lk.X); ok && f == "manifests" {
+									t["mabsent:"+facts.Term(lk.Index)] = true
+								}
+							}
+						}
+						if x, op, y, ok := facts.Cmp(cd); ok && op == token.EQL {
+							for _, pr := range [][2]ssa.Value{{x, y}, {y, x}} {
+								bv, fld, isF := facts.FieldOf(facts.Resolve(pr[0]))
+								if !isF || fld != "mediaType" {
+									continue
+								}
+								lk, isLk := facts.Resolve(bv).(*ssa.Lookup)
+								if !isLk {
+									continue
+								}
+								if f, ok := memMapField(lk.X); !ok || f != "manifests" {
+									continue
+								}
+								t["sameMT:"+facts.Term(lk.Index)+":"+facts.Term(facts.ResolveFree(pr[1]))] = true
+							}
+						}
+						// emptiness tests (x == "", len(x) == 0, len(x) > 0 ...), to prune correlated branches
+						if x, isEmpty, ok := facts.EmptyTest(cd); ok {
+							tm := facts.Term(x)
+							if isEmpty {
+								if t["nonempty:"+tm] {
+									return false
+								}
+								t["empty:"+tm] = true
+							} else {
+								if t["empty:"+tm] {
+									return false
+								}
+								t["nonempty:"+tm] = true
+							}
+						}
+					}
+					return true
+				},
+			}
+			// helpers worth following: those that (transitively) test ImmutableTags,
+			// ask the reachability question, or touch the tag/content maps
+			il := facts.NewInliner(&ff, func(h *ssa.Function) bool {
+				return h.Pkg == fn.Pkg && h != refers && helperTouches(h, 3, func(in ssa.Instruction) bool {
+					switch x := in.(type) {
+					case *ssa.FieldAddr, *ssa.Field:
+						_, name, ok := facts.FieldOf(x.(ssa.Value))
+						return ok && name == "ImmutableTags"
+					case *ssa.MapUpdate:
+						_, ok := memMapField(x.Map)
+						return ok
+					case *ssa.Lookup:
+						_, ok := memMapField(x.X)
+						return ok
+					case *ssa.Call:
+						if bi, ok := x.Call.Value.(*ssa.Builtin); ok && bi.Name() == "delete" {
+							_, ok := memMapField(x.Call.Args[0])
+							return ok
+						}
+						return refers != nil && x.Call.StaticCallee() == refers
+					}
+					return false
+				})
 			})
-		})
-		flow := facts.PathFlow(fn, ff)
-		for _, site := range sites {
-			switch x := site.(type) {
-			case *ssa.MapUpdate:
-				if f, _ := memMapField(x.Map); f == "manifests" {
-					keyT := facts.Term(x.Key)
-					mtParam := ""
-					if al, ok := facts.Resolve(x.Value).(*ssa.Alloc); ok {
-						for _, ref := range *al.Referrers() {
-							if fa, ok := ref.(*ssa.FieldAddr); ok {
-								if _, fn2, _ := facts.FieldOf(fa); fn2 == "mediaType" {
-									for _, st := range facts.StoresTo(fa) {
-										if p, isP := facts.ResolveFree(st.Val).(*ssa.Parameter); isP {
-											mtParam = facts.Term(p)
+			var evalSites func(owner *ssa.Function, sites []ssa.Instruction, flow map[*ssa.BasicBlock]facts.DNF)
+			il.OnInlined = func(h *ssa.Function, flow map[*ssa.BasicBlock]facts.DNF) {
+				if deferred[h] {
+					evalSites(h, sitesOf[h], flow)
+				}
+			}
+			evalSites = func(owner *ssa.Function, sites []ssa.Instruction, flow map[*ssa.BasicBlock]facts.DNF) {
+				for _, site := range sites {
+					if len(flow[site.Block()]) == 0 {
+						continue // not reached in this context
+					}
+					if os.Getenv("OCIVET_DBG_C14") != "" {
+						fmt.Fprintf(os.Stderr, "C14 site %s in %s (root %s):\n", c.P.Pos(site.Pos()), owner.Name(), fn.Name())
+						for _, d := range flow[site.Block()] {
+							fmt.Fprintf(os.Stderr, "   %v\n", d)
+						}
+					}
+					switch x := site.(type) {
+					case *ssa.MapUpdate:
+						if f, _ := memMapField(x.Map); f == "manifests" {
+							keyT := facts.Term(x.Key)
+							mtTerm := ""
+							if al, ok := facts.Resolve(x.Value).(*ssa.Alloc); ok {
+								for _, ref := range *al.Referrers() {
+									if fa, ok := ref.(*ssa.FieldAddr); ok {
+										if _, fn2, _ := facts.FieldOf(fa); fn2 == "mediaType" {
+											for _, st := range facts.StoresTo(fa) {
+												mtTerm = facts.Term(facts.ResolveFree(st.Val))
+											}
 										}
 									}
 								}
 							}
+							note(site, facts.AllAt(ff, flow, site, func(t facts.Tokens) bool {
+								return t["notImmutable"] || t["mabsent:"+keyT] || (mtTerm != "" && t["sameMT:"+keyT+":"+mtTerm])
+							}))
+							continue
+						}
+						keyT := facts.Term(x.Key)
+						note(site, facts.AllAt(ff, flow, site, func(t facts.Tokens) bool { return t["notImmutable"] || t["absent:"+keyT] }))
+					case *ssa.Call:
+						f, _ := memMapField(x.Call.Args[0])
+						if f == "tags" {
+							note(site, facts.AllAt(ff, flow, site, func(t facts.Tokens) bool { return t["notImmutable"] }))
+						} else {
+							keyT := facts.Term(x.Call.Args[1])
+							note(site, facts.AllAt(ff, flow, site, func(t facts.Tokens) bool { return t["notImmutable"] || t["notReferred:"+keyT] }))
 						}
 					}
-					ok := facts.AllAt(ff, flow, site, func(t facts.Tokens) bool {
-						return t["notImmutable"] || t["mabsent:"+keyT] || (mtParam != "" && t["sameMT:"+keyT+":"+mtParam])
-					})
-					c.Check(ok, "C14.R3", facts.FuncName(fn)+"/manifests-store", site.Pos(), "manifest store holds (not ImmutableTags) or (digest absent) or (same media type as stored) on every path", "in immutable-tags mode a stored manifest can be replaced by the same bytes under a different media type: a tagged manifest's interpretation (and so what it keeps alive) changes")
+				}
+			}
+			flow := facts.PathFlow(fn, ff)
+			evalSites(fn, sites, flow)
+		}
+	}
+	// the verdicts, one obligation per site
+	for _, fn := range fns {
+		for _, site := range sitesOf[fn] {
+			v := verdicts[site]
+			ok := v != nil && v.seen && v.ok
+			name := facts.FuncName(fn)
+			switch x := site.(type) {
+			case *ssa.MapUpdate:
+				if f, _ := memMapField(x.Map); f == "manifests" {
+					c.Check(ok, "C14.R3", name+"/manifests-store", site.Pos(), "manifest store holds (not ImmutableTags) or (digest absent) or (same media type as stored) on every path", "in immutable-tags mode a stored manifest can be replaced by the same bytes under a different media type: a tagged manifest's interpretation (and so what it keeps alive) changes")
 					continue
 				}
 				nTagStore++
-				keyT := facts.Term(x.Key)
-				ok := facts.AllAt(ff, flow, site, func(t facts.Tokens) bool { return t["notImmutable"] || t["absent:"+keyT] })
-				c.Check(ok, "C14.R3", facts.FuncName(fn)+"/tags-store", site.Pos(), "tag store holds (not ImmutableTags) or (tag absent) on every path", "a tag binding is stored on a path where ImmutableTags may be set and the tag may already exist: an observed tag can move")
+				c.Check(ok, "C14.R3", name+"/tags-store", site.Pos(), "tag store holds (not ImmutableTags) or (tag absent) on every path", "a tag binding is stored on a path where ImmutableTags may be set and the tag may already exist: an observed tag can move")
 			case *ssa.Call:
 				f, _ := memMapField(x.Call.Args[0])
 				if f == "tags" {
 					nTagDelete++
-					ok := facts.AllAt(ff, flow, site, func(t facts.Tokens) bool { return t["notImmutable"] })
-					c.Check(ok, "C14.R3", facts.FuncName(fn)+"/tags-delete", site.Pos(), "tag delete holds not ImmutableTags", "a tag is deleted on a path where ImmutableTags may be set")
+					c.Check(ok, "C14.R3", name+"/tags-delete", site.Pos(), "tag delete holds not ImmutableTags", "a tag is deleted on a path where ImmutableTags may be set")
 				} else {
 					nContentDelete++
-					keyT := facts.Term(x.Call.Args[1])
-					ok := facts.AllAt(ff, flow, site, func(t facts.Tokens) bool { return t["notImmutable"] || t["notReferred:"+keyT] })
-					c.Check(ok, "C14.R3", facts.FuncName(fn)+"/"+f+"-delete", site.Pos(), "content delete holds (not ImmutableTags) or (not reachable from any tag)", "content is deleted from "+f+" on a path where ImmutableTags may be set and the digest may be reachable from a tag")
+					c.Check(ok, "C14.R3", name+"/"+f+"-delete", site.Pos(), "content delete holds (not ImmutableTags) or (not reachable from any tag)", "content is deleted from "+f+" on a path where ImmutableTags may be set and the digest may be reachable from a tag")
 				}
 			}
 		}
